@@ -625,10 +625,11 @@ const (
 	gEnter    // beacon.select.enter: predicate built, selection lock not yet taken
 	gExit     // beacon.select.exit: end of the walk, selection lock still held
 	gSelected // patchexpired.selected: selection done and unlocked, nothing patched yet
+	gGap      // beacon.add.enter, first Add of an interferer's save: the record was taken out of the expiration beacons and is not back yet
 )
 
-var gateOf = map[string]int32{"beacon.select.enter": gEnter, "beacon.select.exit": gExit, "patchexpired.selected": gSelected}
-var gateName = []string{"none", "enter", "exit", "selected"}
+var gateOf = map[string]int32{"beacon.select.enter": gEnter, "beacon.select.exit": gExit, "patchexpired.selected": gSelected, "beacon.add.enter": gGap}
+var gateName = []string{"none", "enter", "exit", "selected", "gap"}
 
 type mproc struct {
 	name    string
@@ -639,6 +640,8 @@ type mproc struct {
 	ok      atomic.Bool
 	release chan struct{}
 	gating  atomic.Bool
+	gapSeen atomic.Bool // the gap gate is offered once per call (the first beacon Add of a save of an existing record)
+	isIntf  bool
 	rng     *rand.Rand // stress: schedule fuzzing
 }
 
@@ -670,6 +673,11 @@ func installYield(fuzz bool) {
 		if !known || !mp.gating.Load() {
 			return
 		}
+		if g == gGap {
+			if !mp.isIntf || mp.gapSeen.Swap(true) {
+				return
+			}
+		}
 		mp.gate.Store(g)
 		mp.stopped.Store(true)
 		<-mp.release
@@ -685,6 +693,8 @@ func (mp *mproc) start(h *history, o Op) string {
 	mp.stopped.Store(false)
 	mp.done.Store(false)
 	mp.gate.Store(gNone)
+	mp.gapSeen.Store(o.Kind != "patch") // only a patch of an existing record re-files without creating
+	mp.isIntf = !o.claimer()
 	ready := make(chan struct{})
 	go func() {
 		id := sched.GoID()
@@ -773,6 +783,9 @@ func replayMode(in, out, resFile string) error {
 		for _, o := range sc.Init {
 			good = good && call(h, "i1", o)
 		}
+		// the model's indexes exist from the start: build both (lazily built on first use) with claims that take nothing
+		good = good && call(h, "c1", Op{Kind: "sm", N: 1, Idx: "exp", F: Filter{Mode: "none", G: []string{}}, Lo: 90, Hi: 91})
+		good = good && call(h, "c1", Op{Kind: "sm", N: 1, Idx: "key", F: Filter{Mode: "and", UseS: 1, S: "p", G: []string{}}, Lo: -1, Hi: -1})
 		good = good && post(h)
 		mps := map[string]*mproc{}
 		get := func(n string) *mproc {
@@ -791,6 +804,9 @@ func replayMode(in, out, resFile string) error {
 			if st.Act == "start" {
 				got = mp.start(h, *st.Op)
 			} else {
+				got = mp.advance()
+			}
+			if got == "gap" && st.Want != "gap" { // the schedule does not stop in the gap
 				got = mp.advance()
 			}
 			res.Observed = append(res.Observed, st.P+":"+got)
